@@ -354,8 +354,11 @@ template <class V, class T, class Api = ApiPrimary> struct VecRun
                     return;
                 snprintf(name, sizeof name, "v%d.insert_sorted(%d)", i, x);
                 c.log("%s ", name);
-                v.insert_sorted(T(x));
-                m.insert(std::upper_bound(m.begin(), m.end(), x), x);
+                auto r = v.insert_sorted(T(x));
+                auto mr = m.insert(std::upper_bound(m.begin(), m.end(), x), x);
+                // behind the elements it ties with, and the returned iterator says so
+                VP_CHECK((size_t)(r - v.begin()) == (size_t)(mr - m.begin()), "vec_insert_sorted_position", "%s: returned position %zu, upper_bound is %zu", name,
+                         (size_t)(r - v.begin()), (size_t)(mr - m.begin()));
                 break;
             }
             else
